@@ -7,5 +7,6 @@ void *xmalloc(size_t n) { void *p = malloc(n ? n : 1); if (!p) abort(); return p
 void *xcalloc(size_t a, size_t b) { void *p = calloc(a ? a : 1, b ? b : 1); if (!p) abort(); return p; }
 void *xrealloc(void *o, size_t n) { void *p = realloc(o, n ? n : 1); if (!p) abort(); return p; }
 void xfree(void *p) { free(p); }
+char *xstrdup(const char *s) { char *p = strdup(s); if (!p) abort(); return p; }
 void free_const(const void *p) { free(const_cast<void *>(p)); }
 }
